@@ -224,7 +224,15 @@ func floatForm(text string) string {
 // ---------------------------------------------------------------------------
 // strings over the 14-symbol escape-class alphabet
 
-var strAlphabet = []string{"a", "\"", "\\", "\n", "\t", "\r", "\x00", "\x7f", "\u00e9", "\u2028", "\U0001F600", "\x80", "\xc3", ";"}
+var strAlphabet = []string{"a", "\"", "\\", "\n", "\t", "\r", "\x00", "\x7f", "\u00e9", "\u2028", "\U0001F600", "\x80", "\xc3", ";",
+	// the boundary runes of UTF-8 decoding, each as its valid encoding
+	"\ufffd", "\ufffe", "\uffff", "\u0080", "\u07ff", "\u0800", "\ud7ff", "\ue000", "\U00010000", "\U0010ffff", "\ufeff"}
+
+// edgeRunes: the boundary runes of UTF-8 decoding (first/last code point of
+// each encoded width, the surrogate gap's neighbours, the replacement
+// character itself -- whose VALID 3-byte encoding decodes to the same rune
+// value an undecodable byte does -- the noncharacters and the byte-order mark).
+var edgeRunes = []rune{0xFFFD, 0xFFFE, 0xFFFF, 0x80, 0x7FF, 0x800, 0xD7FF, 0xE000, 0x10000, 0x10FFFF, 0xFEFF}
 
 // seqCount is the number of sequences of length <= maxLen over base symbols.
 func seqCount(base, maxLen int) int64 {
@@ -271,6 +279,9 @@ func stringCat(s string) string {
 	cat := "ascii"
 	if !utf8.ValidString(s) {
 		return "invalid-utf8"
+	}
+	if strings.ContainsRune(s, utf8.RuneError) {
+		return "real-U+FFFD" // a validly encoded replacement character
 	}
 	for _, r := range s {
 		switch {
